@@ -43,6 +43,9 @@ def skeletons(tier):
         Skel('l4-actions', [0, 1, 2, 'g'], {0: ('a', 'b'), 1: ('c',), 2: ('b', 'c'), 'g': ('a',)},
              {(0, 'a'): (1,), (0, 'b'): (2, 'g'), (1, 'c'): ('g',), (2, 'b'): ('g',), (2, 'c'): (1,), ('g', 'a'): ('g',)}, absorbing=['g'], init=[0, 'g']),
     ]
+    # falsy action labels (0, ''): the best action of an explored state may be falsy and need not be first in the node's action order
+    F.append(Skel('l3-falsy-actions', [0, 1, 'g'], {0: (1, 0), 1: ('',), 'g': (0,)},
+                  {(0, 0): (1, 'g'), (0, 1): ('g',), (1, ''): ('g',), ('g', 0): ('g',)}, absorbing=['g'], init=[0]))
     F.append(Skel('l3-cycle', [0, 1, 'g'], {0: ('a', 'b'), 1: ('a',), 'g': ('a',)},
                   {(0, 'a'): (1, 0), (0, 'b'): ('g',), (1, 'a'): ('g', 0), ('g', 'a'): ('g',)}, absorbing=['g'], init=[0]))
     if tier == 'thorough':
